@@ -479,6 +479,7 @@ def run_c17(ctx):
     base_inputs(ctx, soup_n=4000 if q else 50000, lf_n=300 if q else 3000, mb_n=300 if q else 3000,
                 trunc_n=200 if q else 2000)
     pick_samples(ctx)
+    twin_mc(ctx, "bom")
     srcs = [c for c in ctx.cases.values() if not c["src"].startswith("\ufeff")]
     both = []
     for c in srcs:
@@ -587,6 +588,7 @@ def run_c16(ctx):
         both.append({"id": cid + ".a", "src": base})
         both.append({"id": cid + ".b", "src": var})
     pick_samples(ctx)
+    twin_mc(ctx, "case")
     for variant in ("dbg", "rel"):
         recs, _ = run_to_dict(ctx, variant, both, events=False, tag=variant)
         paths = write_pairs(ctx, variant, ({"id": i, "a": recs[i + ".a"], "b": recs[i + ".b"]} for i in ids))
@@ -964,6 +966,26 @@ def compose_mc(ctx):
         runs.append({"fragset": fs, "max_stack": stack, "distinct": st["distinct"], "states": st["states"], "wall_s": round(wall, 1)})
         log("[mc] MC_Compose %s stack<=%d: %d distinct states, %.0fs, Compose holds" % (fs, stack, st["distinct"], wall))
     ctx.extra["design_model_checking"] = {"module": "spec/MC_Compose.tla", "invariants": ["Compose", "NoFault"], "runs": runs}
+
+
+def twin_mc(ctx, twin):
+    """C16 / C17 at the design level: spec/MC_Twin.tla runs a twin lexer on the upper-cased / BOM-prefixed text."""
+    sets = [("open", 8, 9, 3), ("str", 30, 1, 2)] if ctx.quick() else \
+        [("open", 10, 9, 3), ("macrostat", 9, 1, 2), ("str", 30, 1, 2), ("call", 30, 1, 2), ("eval", 30, 1, 2)]
+    runs = []
+    for fs, stack, calls, window in sets:
+        cfg = (MC_CFG % dict(invs="TwinSame NoFault", props="", view="VIEW View", maxfrags=1000, spec=8, tsc=4, fs=fs,
+                             stack=stack, window=window, calls=calls, emit="FALSE")
+               ).replace("SPECIFICATION Spec", "SPECIFICATION TSpec").replace("CONSTANTS\n", "CONSTANTS\n  Twin = \"%s\"\n" % twin)
+        rc, out, wall = common.tlc("MC_Twin", cfg, ctx.dir, "mc-twin-" + fs, workers=16, timeout=3600, heap="16g")
+        if "Model checking completed. No error has been found." not in out:
+            raise ToolError("MC_Twin failed:\n" + out[-1500:])
+        st = common.parse_tlc_stats(out)
+        ctx.states += st["distinct"]
+        ctx.transitions += st["states"]
+        runs.append({"fragset": fs, "max_stack": stack, "distinct": st["distinct"], "states": st["states"], "wall_s": round(wall, 1)})
+        log("[mc] MC_Twin(%s) %s stack<=%d: %d distinct states, %.0fs, TwinSame holds" % (twin, fs, stack, st["distinct"], wall))
+    ctx.extra["design_model_checking"] = {"module": "spec/MC_Twin.tla", "twin": twin, "invariants": ["TwinSame", "NoFault"], "runs": runs}
 
 
 # ----------------------------------------------------------------------------- Gen (C12-C14)
